@@ -66,6 +66,22 @@ EXT = [
  ("Luma<DciP3>", "palette::luma::Luma<DciP3, {T}>"),
  ("LinLuma<D50>", "palette::LinLuma<D50, {T}>"),
 ]
+# every remaining built-in white point at least once (the CIE constants of white_point.rs are only observable through a
+# space parametrised by them): Xyz<W> plus one or two CIE spaces relative to W
+WP_EXTRA = {
+    "B": ["Lab"], "C": ["Luv"], "D55": ["Lab", "Luv", "Yxy", "LinLuma"], "D75": ["Lab", "Lchuv"], "F2": ["Luv"], "F7": ["Lab"], "F11": ["Luv", "Yxy"],
+    "D50Degree10": ["Lab"], "D55Degree10": ["Luv"], "D65Degree10": ["Lab", "Yxy"], "D75Degree10": ["Luv"],
+}
+WP_PAIRS = []
+for w, kinds in WP_EXTRA.items():
+    EXT.append(("Xyz<%s>" % w, "palette::Xyz<palette::white_point::%s, {T}>" % w))
+    for k in kinds:
+        EXT.append(("%s<%s>" % (k, w), "palette::%s<palette::white_point::%s, {T}>" % (k, w)))
+        if k == "Lchuv":
+            EXT.append(("Luv<%s>" % w, "palette::Luv<palette::white_point::%s, {T}>" % w))
+            WP_PAIRS += [("Xyz<%s>" % w, "Luv<%s>" % w), ("Luv<%s>" % w, "Lchuv<%s>" % w)]
+        else:
+            WP_PAIRS.append(("Xyz<%s>" % w, "%s<%s>" % (k, w)))
 SPACES = K18 + EXT
 IDX = {n: i for i, (n, _) in enumerate(SPACES)}
 
@@ -116,6 +132,8 @@ both("Luma<AdobeRgb>", "AdobeRgb"); both("Luma<AdobeRgb>", "Luma"); both("Luma<A
 both("Luma<Rec2020>", "Rec2020"); both("Luma<Rec2020>", "LinRec2020"); both("Luma<Rec2020>", "Luma<Rec709>"); both("Luma<Rec2020>", "Lab")
 both("Luma<DciP3>", "Xyz<DciWhite>"); both("Luma<DciP3>", "DciP3"); both("Luma<DciP3>", "LinDciP3")
 both("LinLuma<D50>", "Xyz<D50>"); both("LinLuma<D50>", "ProPhoto"); both("LinLuma<D50>", "Lab<D50>"); both("LinLuma<D50>", "Yxy<D50>")
+for a, b in WP_PAIRS:
+    both(a, b)
 both("Lab", "Rec2020"); both("Lch", "AdobeRgb"); both("Luv", "LinRec2020"); both("Hsluv", "AdobeRgb")
 
 out = []
